@@ -241,7 +241,7 @@ let handle (fs : string list) : string =
         if !misses <> [] then "!miss " ^ String.concat " " (List.rev !misses) else
         (match r with
          | Bad e -> show_err e
-         | Good b -> if b then "A 1" else "A 0")
+         | Good (st, b) -> "A " ^ (if b then "1" else "0") ^ (if st then "1" else "0"))
       end else
       let res = (match cmd with
           | "render" -> render_doc backend c o toks
